@@ -180,12 +180,7 @@ func checkC13(p *Program, r *Result) {
 				continue
 			}
 			nObs++
-			closed := false
-			for _, c2 := range callsIn(fn, func(c ssa.CallInstruction) bool { return calleeRepoName(c) == "mcap.countingCRCWriter.Close" }) {
-				if instrDominates(c2, ci) {
-					closed = true
-				}
-			}
+			closed := precededBy(p, ci, func(c ssa.CallInstruction) bool { return calleeRepoName(c) == "mcap.countingCRCWriter.Close" }, 3)
 			if closed {
 				r.held("C13.e", funcName(fn), "observation of the compressed buffer ("+trimPkg(name)+")", p.pos(ci.Pos()), "after the compressor was closed")
 			} else {
